@@ -8,7 +8,6 @@ import (
 	"html"
 	"math"
 	"net/url"
-	"reflect"
 	"regexp"
 	"strings"
 	"time"
@@ -327,52 +326,29 @@ func splitFilter(s, sep string) any {
 }
 
 func uniqFilter(a []any) (result []any) {
-	seenMap := map[any]bool{}
-	seen := func(item any) bool {
-		if item == nil {
-			// reflect.TypeOf(nil) is nil; nil is comparable
-			if seenMap[nil] {
-				return true
-			}
-			seenMap[nil] = true
-			return false
-		}
-		if k := reflect.TypeOf(item).Kind(); k < reflect.Array || k == reflect.Ptr || k == reflect.UnsafePointer {
-			if seenMap[item] {
-				return true
-			}
-			seenMap[item] = true
-			return false
-		}
-		// the O(n^2) case:
-		for _, other := range result {
-			if eqItems(item, other) {
-				return true
-			}
-		}
-		return false
-	}
+	// elements are the same when they are equal as Liquid values (== in a template):
+	// 1 and 1.0, a Drop and its value, a typed and a generic slice with equal elements
+	seenStrings := map[string]bool{}
 	for _, item := range a {
-		// an element may be a Drop: it counts as its ToLiquid value
-		if !seen(values.ToLiquid(item)) {
-			result = append(result, values.ToLiquid(item))
+		item = values.ToLiquid(item)
+		if s, ok := item.(string); ok {
+			// a string equals only strings
+			if !seenStrings[s] {
+				seenStrings[s] = true
+				result = append(result, item)
+			}
+			continue
+		}
+		dup := false
+		for _, other := range result {
+			if values.Equal(item, other) {
+				dup = true
+				break
+			}
+		}
+		if !dup {
+			result = append(result, item)
 		}
 	}
 	return
-}
-
-func eqItems(a, b any) (eq bool) {
-	if a == nil || b == nil {
-		return a == b
-	}
-	if reflect.TypeOf(a).Comparable() && reflect.TypeOf(b).Comparable() {
-		// a comparable type (an array or struct of interfaces) may still hold values that are not
-		defer func() {
-			if recover() != nil {
-				eq = reflect.DeepEqual(a, b)
-			}
-		}()
-		return a == b
-	}
-	return reflect.DeepEqual(a, b)
 }
